@@ -152,7 +152,30 @@ def _check_C01_or(case, R):
             U.check_figures("C01", nd, spec, _l2c(spec), cfg, report, T=T)
 
 
+def _check_C01_at_literals(case, R):
+    """N-Triples literals whose text contains '@' (with and without a language tag)."""
+    nt = case["nt"]
+    specs = _SpecCache(U.parse_nt(nt))
+    for run in case["runs"]:
+        cfg, t = run["cfg"], run["t"]
+        try:
+            nd = R.run(nt, cfg, t)
+        except U.Skipped:
+            continue
+        spec = specs.get(cfg)
+
+        def rep_(kind, run=run):
+            def f(key, what, obs, exp):
+                R.emit("C01:at-in-literal:%s-mismatch" % kind, "[%s] %s" % (key, what),
+                       {"pid": "C01", "kind": "at-literals", "nt": nt, "runs": [run]}, observed=obs, expected=exp)
+            return f
+        U.check_figures("C01", nd, spec, _l2c(spec), cfg, rep_("figure"))
+        U.check_keys("C01", nd, spec, _l2c(spec), t, rep_("key"))
+
+
 def check_C01(case, R):
+    if case.get("kind") == "at-literals":
+        return _check_C01_at_literals(case, R)
     if case.get("kind") == "or":
         return _check_C01_or(case, R)
     if case.get("kind") == "rdflib":
@@ -305,6 +328,23 @@ def check_C02(case, R):
         return check_C10(case, R)
     if case.get("kind") == "threshold-walk":
         return check_threshold_walk(case, R)
+    if case.get("kind") == "shapemap-gone":
+        # shape map + inverse paths + a threshold that empties one label: the other shapes keep exactly their keys
+        M, S, G = U.lib()
+        nt, cfg, t, items = case["nt"], case["cfg"], case["t"], case["items"]
+        T = U.parse_nt(nt)
+        sm = "\n".join("%s@<%s>" % (_selector_text(it["sel"]), it["label"]) for it in items)
+        try:
+            nd = R.run(nt, _merge(cfg, {"shape_map_raw": sm}), t)
+        except U.Skipped:
+            return
+        spec, l2c, _, _ = _mixed_oracle(T, items, cfg, bool(cfg.get("inverse_paths")), bool(cfg.get("all_classes_mode")))
+
+        def report(key, what, obs, exp):
+            R.emit(key, what, dict((k, v) for k, v in case.items() if k != "origin"), observed=obs, expected=exp)
+        U.check_keys("C02:shapemap-gone", nd, spec, l2c, t, report)
+        U.check_figures("C02:shapemap-gone", nd, spec, l2c, cfg, report)
+        return
     nt = case["nt"]
     specs = _SpecCache(U.parse_nt(nt))
     for cfg in case["cfgs"]:
@@ -321,34 +361,77 @@ def check_C02(case, R):
             U.check_keys("C02", nd, spec, _l2c(spec), t, report)
 
 
+def _check_emptied_refs(nd, spec, l2c, t, emit):
+    """A non-literal key whose candidates at t are an IRI kind and references to shapes with IDENTICAL profiles (every value
+    is an instance of those shapes) is represented by the reference; when every referenced shape has been emptied by the
+    threshold and removed, the constraint goes with it.  It must not come back as an IRI constraint at the higher threshold."""
+    S = U.lib()[1]
+    printed = dict((sh["label"], sh) for sh in nd)
+    c2l = dict((C, lab) for lab, C in l2c.items())
+    for lab, sh in printed.items():
+        C = l2c.get(lab)
+        if C is None:
+            continue
+        by_key = {}
+        for e in spec.cand(C, t):
+            by_key.setdefault(S.key_of(e.dir, e.p, e.k, spec.pi), []).append(e)
+        have = dict((U.con_key(c, l2c, spec.pi), c) for c in sh["cons"])
+        for kx, es in by_key.items():
+            if kx[2] != S.NONLIT or kx not in have:
+                continue
+            kinds = set(e.k for e in es)
+            refs = [k for k in kinds if S.is_shape(k)]
+            if not refs or "BNode" in kinds or "IRI" not in kinds:
+                continue
+            prof_of = lambda k: sorted((repr(e.c), e.n) for e in es if e.k == k)
+            if any(prof_of(k) != prof_of("IRI") for k in refs):
+                continue
+            if all(c2l.get(k[1:]) not in printed for k in refs):
+                emit("C12:emptied-shape:reference-replaced-by-node-kind",
+                     "t=%r: shape %s has the constraint %r although every value of %s is an instance of %s, whose shapes were emptied by "
+                     "the threshold and removed (at lower thresholds the constraint is the reference and disappears with the shape)"
+                     % (t, lab, have[kx]["raw"].strip(), kx[1], [k[1:] for k in refs]), have[kx]["raw"].strip(), "no constraint for %r" % (kx,))
+
+
 def check_C12(case, R):
     M, S, G = U.lib()
     nt = case["nt"]
-    specs = _SpecCache(U.parse_nt(nt))
+    T12 = U.parse_nt(nt)
+    specs = _SpecCache(T12)
+    items = case.get("items")
+    extra_case = {"items": items} if items else {}
     for cfg in case["cfgs"]:
-        spec = specs.get(cfg)
-        l2c = _l2c(spec)
+        if items:
+            spec, l2c, _, _ = _mixed_oracle(T12, items, cfg, bool(cfg.get("inverse_paths")), bool(cfg.get("all_classes_mode")))
+            run_cfg = _merge(cfg, {"shape_map_raw": "\n".join("%s@<%s>" % (_selector_text(it["sel"]), it["label"]) for it in items)})
+        else:
+            spec = specs.get(cfg)
+            l2c = _l2c(spec)
+            run_cfg = cfg
         outs = []
         for t in _thresholds(case, spec):
             try:
-                nd = R.run(nt, cfg, t)
+                nd = R.run(nt, run_cfg, t)
             except U.Skipped:
                 continue
+            if items:
+                _check_emptied_refs(nd, spec, l2c, t, lambda key, what, obs, exp, cfg=cfg, t=t: R.emit(
+                    key, what, dict({"pid": "C12", "nt": nt, "cfgs": [cfg], "thresholds": [t]}, **extra_case), observed=obs, expected=exp))
             shapes = {}
             for sh in nd:
                 facts, conflict = U.fact_map(sh, l2c, skip_plus_lines=bool(cfg.get("disable_exact_cardinality")))
                 shapes[sh["label"]] = (set(U.con_key(c, l2c, spec.pi) for c in sh["cons"]), facts, sh["N"])
                 for (fk, a, b) in conflict:
                     R.emit("C12:figure-conflict-within-output", "t=%r: fact %r printed with two figures %r / %r" % (t, fk, a, b),
-                           {"pid": "C12", "nt": nt, "cfgs": [cfg], "thresholds": [t]}, observed=[a, b], expected="one figure")
+                           dict({"pid": "C12", "nt": nt, "cfgs": [cfg], "thresholds": [t]}, **extra_case), observed=[a, b], expected="one figure")
             outs.append((t, shapes))
             if t in (0, 1):          # "at threshold 0 nothing observed is omitted, at threshold 1 only features of all instances remain"
                 def absolute(key, what, obs, exp, cfg=cfg, t=t):
-                    R.emit(key, what, {"pid": "C12", "nt": nt, "cfgs": [cfg], "thresholds": [t]}, observed=obs, expected=exp)
+                    R.emit(key, what, dict({"pid": "C12", "nt": nt, "cfgs": [cfg], "thresholds": [t]}, **extra_case), observed=obs, expected=exp)
                 U.check_keys("C12", nd, spec, l2c, t, absolute)
         for (t1, s1), (t2, s2) in itertools.combinations(outs, 2):      # t1 < t2
             def emit(key, what, obs, exp, t1=t1, t2=t2, cfg=cfg):
-                R.emit(key, what, {"pid": "C12", "nt": nt, "cfgs": [cfg], "thresholds": [t1, t2]}, observed=obs, expected=exp)
+                R.emit(key, what, dict({"pid": "C12", "nt": nt, "cfgs": [cfg], "thresholds": [t1, t2]}, **extra_case), observed=obs, expected=exp)
             for lab in s2:
                 if lab not in s1:
                     emit("C12:shape-appears", "shape %s is present at t=%r but not at t=%r" % (lab, t2, t1), t2, t1)
@@ -376,7 +459,7 @@ def _evidence(nd, l2c, pi):
         for c in sh["cons"]:
             chosen[U.con_key(c, l2c, pi)] = (c["value"], c["card"])
         ev[sh["label"]] = {"N": sh["N"], "keys": set(chosen), "facts": set((fk, fv[0]) for fk, fv in facts.items()),
-                           "chosen": chosen}
+                           "chosen": chosen, "min_iri": sh.get("min_iri")}
     return ev
 
 
@@ -410,6 +493,9 @@ def check_C09(case, R):
                 a, b = ev0[lab], ev1[lab]
                 if a["N"] != b["N"]:
                     emit("C09:instance-count", "%s: %r vs %r instances" % (lab, a["N"], b["N"]), b["N"], a["N"])
+                if a.get("min_iri") != b.get("min_iri"):
+                    emit("C09:minimal-iri", "%s: IRI stem %r for the original, %r for the permuted document" % (lab, a.get("min_iri"), b.get("min_iri")),
+                         b.get("min_iri"), a.get("min_iri"))
                 if a["keys"] != b["keys"]:
                     emit("C09:key-set", "%s: keys differ by %r" % (lab, sorted(a["keys"] ^ b["keys"], key=repr)),
                          sorted(b["keys"], key=repr), sorted(a["keys"], key=repr))
@@ -473,14 +559,20 @@ def check_C13(case, R):
         if key not in cache:
             try:
                 cache[key] = R.run(nt, cfg, t)
-            except U.Skipped:
-                cache[key] = None
+            except U.Skipped as sk:
+                cache[key] = sk.signature
         return cache[key]
 
     for (opt, va, vb) in case["pairs"]:
         ca, cb = _merge(base, {opt: va}), _merge(base, {opt: vb})
         a, b = out(ca), out(cb)
-        if a is None or b is None:
+        bad = [x for x in (a, b) if isinstance(x, str)]
+        if len(bad) == 1 and bad[0].startswith("unparsable-output") and opt in ("namespaces_dict", "shapes_namespace", "decimals",
+                                                                                 "instances_report_mode", "disable_comments"):
+            R.emit("C13:structure-changed:%s" % opt, "%s=%r gives a well-formed ShExC document, %s=%r does not (%s): shapes/constraints "
+                   "cannot be the same" % (opt, vb if isinstance(a, str) else va, opt, va if isinstance(a, str) else vb, bad[0]),
+                   {"pid": "C13", "nt": nt, "base": base, "t": t, "pairs": [[opt, va, vb]]}, observed=bad[0], expected="identical structure")
+        if bad:
             continue
 
         def emit(key, what, obs, exp, opt=opt, va=va, vb=vb):
@@ -635,6 +727,22 @@ def _check_C14_inverse_oracle(case, R):
 
 
 def check_C14(case, R):
+    if case.get("kind") == "meta":
+        # a target instance is also the class of other nodes: the incoming typing links are '^ rdf:type [node]'
+        T = U.parse_nt(case["nt"])
+        cfg = _merge(case["cfg"], {"inverse_paths": True})
+        try:
+            nd = R.run(case["nt"], cfg, case["t"])
+        except U.Skipped:
+            nd = None
+        if nd is not None:
+            spec = U.spec_for(T, cfg)
+
+            def report(key, what, obs, exp):
+                R.emit(key, what, dict((k, v) for k, v in case.items() if k != "origin"), observed=obs, expected=exp)
+            U.check_figures("C14:class-as-instance", nd, spec, _l2c(spec), cfg, report)
+            U.check_keys("C14:class-as-instance", nd, spec, _l2c(spec), case["t"], report)
+        case = dict(case, kind=None)               # ... and the ordinary three-run relation
     if case.get("kind") == "shacl-direction":
         return _check_C14_shacl(case, R)
     if case.get("kind") == "inverse-oracle":
@@ -1311,6 +1419,21 @@ WDT = "http://www.wikidata.org/prop/direct/"
 RDFS = "http://www.w3.org/2000/01/rdf-schema#"
 
 
+def _gone_shape_fixture():
+    """Deterministic instance of the 'label emptied by the threshold' situation: L1 = two nodes sharing nothing, L2 = the
+    instances of A, which all have an incoming ex:k link and an outgoing ex:name."""
+    M, S, G = U.lib()
+    a1, a2, n1, n2, u = (M.IRI(G.EX + x) for x in ("a1", "a2", "n1", "n2", "u"))
+    T = [M.Triple(a1, M.RDF_TYPE, M.IRI(G.CLASS_A)), M.Triple(a2, M.RDF_TYPE, M.IRI(G.CLASS_A)),
+         M.Triple(u, G.EX + "k", a1), M.Triple(u, G.EX + "k", a2), M.Triple(a1, G.EX + "name", M.Lit("x")),
+         M.Triple(a2, G.EX + "name", M.Lit("y")), M.Triple(n1, G.PROP_P, M.Lit("x")), M.Triple(n2, G.PROP_Q, M.Lit("1", dt=M.XSD_INTEGER)),
+         M.Triple(a1, G.EX + "see", n1)]
+    items = [{"sel": {"form": "node", "node": n1.iri}, "label": U.ALT_SHAPES_NS + "L1"},
+             {"sel": {"form": "node", "node": n2.iri}, "label": U.ALT_SHAPES_NS + "L1"},
+             {"sel": {"form": "focus-type", "cls": G.CLASS_A}, "label": U.ALT_SHAPES_NS + "L2"}]
+    return T, items
+
+
 def _extra_cases(pid, tier, rng, n_enum, n_rand):
     """Families added for seeded changes that the original families could not see."""
     M, S, G = U.lib()
@@ -1342,6 +1465,20 @@ def _extra_cases(pid, tier, rng, n_enum, n_rand):
             runs = [{"cfg": _merge(_mode_cfg(m), {"inverse_paths": True} if inv else {}), "t": 0} for m in ("all", "A") for inv in (False, True)]
             out.append({"pid": pid, "kind": "duplicates", "dup_kind": dk, "origin": "duplicate-lines", "nt": U.to_nt(T2), "runs": runs})
     if pid == "C01":
+        at_lits = [M.Lit("Bob @ work", lang="en"), M.Lit("contact @ st. john", lang="en-GB"), M.Lit("dave@ex.org", lang="en"),
+                   M.Lit("mail me @ home"), M.Lit("a@b c", dt=U.DT_FOO), M.Lit("x @ y @ z", lang="fr"), M.Lit("@home"),
+                   M.Lit("7 @ 8", dt=M.XSD_INTEGER)]
+        for gi in range(n_of(10)):                     # '@' inside the text of (language-tagged) literals, read as N-Triples
+            T = U.rand_graph(rng, n_nodes=rng.randint(3, 6), n_triples=rng.randint(6, 16), n_classes=2, n_props=3, p_bnode=0.0,
+                             p_literal=0.0, extra_literals=())
+            nodes = U.dedup([s for (s, p, o) in T if p == M.RDF_TYPE])
+            for _ in range(rng.randint(4, 10)):
+                T.append(M.Triple(rng.choice(nodes), rng.choice([G.EX + "p0", G.OTHER + "p1", G.EX + "label"]), rng.choice(at_lits)))
+            T = U.dedup(T)
+            rng.shuffle(T)
+            runs = [{"cfg": _merge(_mode_cfg(m), {"inverse_paths": True} if (gi + i) % 2 else {}), "t": t}
+                    for i, m in enumerate(("all", "A")) for t in (0, 0.5)]
+            out.append({"pid": pid, "kind": "at-literals", "origin": "at-literals", "nt": U.to_nt(T), "runs": runs})
         for gi in range(n_of(8)):                      # disjunctions: values conforming to >= 2 shapes, several such properties
             def g():
                 return U.rand_graph(rng, n_nodes=rng.randint(4, 7), n_triples=rng.randint(8, 18), n_classes=3, n_props=3,
@@ -1490,6 +1627,81 @@ def _extra_cases(pid, tier, rng, n_enum, n_rand):
             pairs = [["namespaces_dict", nsd(a), nsd(b)] for a, b in (("none", "RO"), ("RO", "obo"), ("obo", "RO+obo"), ("none", "RO+BFO"))]
             out.append({"pid": pid, "origin": "obo-namespaces", "nt": U.to_nt(T),
                         "base": _merge(_mode_cfg("all"), {"inverse_paths": True} if gi % 2 else {}), "t": (0, 0.5)[gi % 2], "pairs": pairs})
+    if pid == "C02":
+        for gi in range(n_of(6)):                      # (as C14's family) shape map + inverse paths + a label emptied by the threshold
+            T = U.rand_graph(rng, n_nodes=rng.randint(4, 7), n_triples=rng.randint(6, 16), n_classes=2, n_props=rng.randint(2, 3),
+                             p_bnode=0.0, p_typed=0.7)
+            typed = U.dedup([s.iri for (s, p, o) in T if p == M.RDF_TYPE])
+            others = U.dedup([x.iri for (s, p, o) in T for x in (s, o) if isinstance(x, M.IRI) and x.iri not in typed
+                              and x.iri not in (G.CLASS_A, G.CLASS_B)]) or typed
+            classes = U.dedup([o.iri for (s, p, o) in T if p == M.RDF_TYPE])
+            items = [{"sel": {"form": "node", "node": rng.choice(typed)}, "label": U.ALT_SHAPES_NS + "L1"},
+                     {"sel": {"form": "node", "node": rng.choice(others)}, "label": U.ALT_SHAPES_NS + "L1"},
+                     {"sel": {"form": "focus-type", "cls": rng.choice(classes)}, "label": U.ALT_SHAPES_NS + "L2"}]
+            if gi == 0:
+                T, items = _gone_shape_fixture()
+            cfg = _merge({"inverse_paths": True}, {"all_classes_mode": True} if gi % 2 else {})
+            for t in (1, 0.6, 0):
+                out.append({"pid": pid, "kind": "shapemap-gone", "origin": "shapemap-gone", "nt": U.to_nt(T), "cfg": cfg, "t": t, "items": items})
+    if pid == "C12":
+        for gi in range(n_of(8)):                      # label A whose ex:ref values are all instances of a label B that empties
+            na, nb = rng.randint(1, 3), rng.randint(2, 4)
+            A = [M.IRI(G.EX + "a%d" % i) for i in range(na)]
+            B = [M.IRI(G.EX + "b%d" % i) for i in range(nb)]
+            T = []
+            for x in A:
+                T.append(M.Triple(x, G.EX + "name", M.Lit("n")))
+                for y in rng.sample(B, rng.randint(1, min(2, nb))):
+                    T.append(M.Triple(x, G.EX + "ref", y))
+            for i, y in enumerate(B):                  # the B nodes share no feature: every feature at 1/nb
+                T.append(M.Triple(y, G.EX + "only%d" % i, rng.choice([M.Lit("v"), M.Lit("1", dt=M.XSD_INTEGER), M.IRI(G.OTHER + "u%d" % i)])))
+            if gi % 3 == 0:
+                T.append(M.Triple(B[0], G.EX + "back", A[0]))
+            T = U.dedup(T)
+            rng.shuffle(T)
+            items = [{"sel": {"form": "node", "node": x.iri}, "label": U.ALT_SHAPES_NS + "A"} for x in A] + \
+                    [{"sel": {"form": "node", "node": y.iri}, "label": U.ALT_SHAPES_NS + "B"} for y in B]
+            out.append({"pid": pid, "origin": "emptied-shape", "nt": U.to_nt(T), "items": items,
+                        "cfgs": [{}, {"inverse_paths": True}] if gi % 2 else [{}], "thresholds": "grid"})
+    if pid == "C13":
+        for gi in range(n_of(8)):                      # a declared namespace that is a proper prefix of the shapes namespace
+            T = U.rand_graph(rng, n_nodes=rng.randint(3, 6), n_triples=rng.randint(5, 12), n_classes=2, n_props=2, p_bnode=0.0)
+            full = dict(G.NAMESPACES)
+            with_weso = collections.OrderedDict([["http://weso.es/", "weso"]] + [[k, v] for k, v in full.items()])
+            out.append({"pid": pid, "origin": "prefix-of-shapes-namespace", "nt": U.to_nt(T),
+                        "base": _merge(_mode_cfg("all"), {"inverse_paths": True} if gi % 2 else {}), "t": (0, 0.5)[gi % 2],
+                        "pairs": [["namespaces_dict", full, with_weso]]})
+            nt_x = U.to_nt(T).replace("http://ex.org/", "http://example.org/")
+            less = collections.OrderedDict([[M.XSD, "xsd"], [M.RDF, "rdf"], [G.OTHER, "o"]])
+            more = collections.OrderedDict([["http://example.org/", "ex"]] + [[k, v] for k, v in less.items()])
+            out.append({"pid": pid, "origin": "prefix-of-shapes-namespace", "nt": nt_x,
+                        "base": _merge({"all_classes_mode": True, "shapes_namespace": "http://example.org/shapes#"}), "t": 0,
+                        "pairs": [["namespaces_dict", less, more]]})
+    if pid == "C09":
+        for gi in range(n_of(10)):                     # detect_minimal_iri with a 'container' instance next to its members
+            base = (G.EX + "catalog", G.OTHER.rstrip("#") + "/set", G.EX + "data/c")[gi % 3]
+            members = [M.IRI(base)] + [M.IRI(base + "/d%d" % i) for i in range(1, rng.randint(2, 4))]
+            T = [M.Triple(x, M.RDF_TYPE, M.IRI(G.CLASS_A)) for x in members]
+            T += [M.Triple(x, G.PROP_P, M.Lit("x")) for x in members if rng.random() < 0.6]
+            if gi % 2:
+                T += [M.Triple(M.IRI(G.EX + "other"), M.RDF_TYPE, M.IRI(G.CLASS_B)), M.Triple(M.IRI(base + "/zz"), M.RDF_TYPE, M.IRI(G.CLASS_B))]
+            rng.shuffle(T)
+            variants = [U.to_nt(p_) for p_ in _permutations(T, rng, 8)][:40]
+            out.append({"pid": pid, "origin": "minimal-iri", "nt": U.to_nt(T), "variants": variants,
+                        "runs": [{"cfg": _merge(_mode_cfg("all"), {"detect_minimal_iri": True}), "t": 0}]})
+    if pid == "C14":
+        for gi in range(n_of(8)):                      # a target instance that is also the class of other nodes
+            T = U.rand_graph(rng, n_nodes=rng.randint(3, 6), n_triples=rng.randint(4, 12), n_classes=2, n_props=2, p_bnode=0.0)
+            T.append(M.Triple(M.IRI(G.CLASS_A), M.RDF_TYPE, M.IRI(G.EX + "Meta")))
+            if gi % 2:
+                T.append(M.Triple(M.IRI(G.CLASS_B), M.RDF_TYPE, M.IRI(G.EX + "Meta")))
+            if gi % 3 == 0:
+                T.append(M.Triple(M.IRI(G.CLASS_A), G.EX + "p0", M.Lit("x")))
+            T = U.dedup(T)
+            rng.shuffle(T)
+            for cfg in ({"all_classes_mode": True}, {"target_classes": [G.EX + "Meta"]}):
+                out.append({"pid": pid, "kind": "meta", "origin": "class-as-instance", "nt": U.to_nt(T), "cfg": cfg, "t": (0, 0.5)[gi % 2],
+                            "relaxed": False})
     if pid == "C14":
         for gi in range(n_of(5)):                      # shape map + inverse paths + thresholds that empty a shape
             T = U.rand_graph(rng, n_nodes=rng.randint(4, 7), n_triples=rng.randint(6, 16), n_classes=2, n_props=rng.randint(2, 3),
@@ -1502,6 +1714,8 @@ def _extra_cases(pid, tier, rng, n_enum, n_rand):
                      {"sel": {"form": "node", "node": rng.choice(others)}, "label": U.ALT_SHAPES_NS + "L1"},
                      {"sel": {"form": "focus-type", "cls": rng.choice(classes)}, "label": U.ALT_SHAPES_NS + "L2"}]
             cfg = _merge({"all_classes_mode": True} if gi % 2 else {}, _switch_combo(rng, 0.2) if gi % 3 == 0 else {})
+            if gi == 0:
+                (T, items), cfg = _gone_shape_fixture(), {}
             for t in (1, 0.6):
                 out.append({"pid": pid, "origin": "shapemap-gone-shapes", "nt": U.to_nt(T), "cfg": cfg, "t": t, "relaxed": False, "items": items})
     if pid == "C16":
@@ -2122,6 +2336,80 @@ def _mutants():
                 continue
             self._strategy.annotate_instance_features(an_instance)
 
+    # ---- fourth round -----------------------------------------------------------------------------
+    import shexer.utils.uri as uri_mod
+    import shexer.utils.shapes as shapes_mod
+
+    def literal_token_find_at(self, target_str, first_index):
+        target_substring = target_str[first_index:]
+        if uri_mod.there_is_arroba_after_last_quotes(target_substring):
+            at = target_str.find("@", first_index)
+            return target_str[at:].find(" ") - 1 + at
+        return orig_literal_token(self, target_str, first_index)
+    orig_literal_token = nty.NtTriplesYielder._look_for_last_index_of_literal_token
+
+    def patch_inverse_setter():
+        old_prop = shape_mod.Shape.__dict__["inverse_statements"]
+
+        def setter(self, inverse_statements):
+            self._statements = [a_statement for a_statement in self._statements if a_statement.is_inverse]
+            for a_statement in inverse_statements:
+                self._statements.append(a_statement)
+        shape_mod.Shape.inverse_statements = property(old_prop.fget, setter)
+        return lambda: setattr(shape_mod.Shape, "inverse_statements", old_prop)
+
+    def shex_classes_clean_first(self, acceptance_threshold=0, verbose=False):
+        self._build_shapes(acceptance_threshold)
+        self._sort_shapes()
+        self._clean_empty_shapes()
+        self._set_valid_constraints_of_shapes()
+        return self._shapes_list
+
+    def prefixize_loose(target_uri, namespaces_prefix_dict, corners=True):
+        best_match = None
+        candidate_uri = uri_mod.remove_corners(target_uri) if corners else target_uri
+        for a_namespace in namespaces_prefix_dict:
+            if candidate_uri.startswith(a_namespace):
+                local_name = candidate_uri[len(a_namespace):]
+                if not ("/" in local_name and "#" in local_name):
+                    best_match = a_namespace
+                    break
+        return target_uri if best_match is None else candidate_uri.replace(best_match, namespaces_prefix_dict[best_match] + ":")
+
+    def patch_prefixize_loose():
+        undo = [setattr_patch(m, "prefixize_uri_if_possible", prefixize_loose)() for m in (uri_mod, shapes_mod)]
+        return lambda: [u() for u in undo]
+
+    orig_serialize_statement = bss.BaseStatementSerializer.serialize_statement_with_indent_level
+
+    def serialize_without_caret_for_pi(self, a_statement, is_last_statement_of_shape, namespaces_dict):
+        out = orig_serialize_statement(self, a_statement, is_last_statement_of_shape, namespaces_dict)
+        if a_statement.st_property == self._instantiation_property_str and out and out[0][0].startswith("^"):
+            out[0] = (out[0][0][1:].lstrip(), out[0][1])
+        return out
+
+    def lcp_returns_uri2(uri1, uri2):
+        if len(uri1) == 0 or len(uri2) == 0:
+            return ""
+        for a, b in zip(uri1, uri2):
+            if a != b:
+                return uri1[:[x == y for x, y in zip(uri1, uri2)].index(False)]
+        return uri2
+
+    round4 = [
+        ("C01", "[4.1] N-Triples literal token: language-tag branch uses find('@') instead of rfind('@')",
+         setattr_patch(nty.NtTriplesYielder, "_look_for_last_index_of_literal_token", literal_token_find_at)),
+        ("C02", "[4.2] Shape.inverse_statements setter lost its 'not' (drops direct statements, doubles the inverse ones)",
+         patch_inverse_setter),
+        ("C12", "[4.3] ClassShexer.shex_classes cleans empty shapes BEFORE selecting the valid constraints",
+         setattr_patch(cshex.ClassShexer, "shex_classes", shex_classes_clean_first)),
+        ("C13", "[4.4] prefixize_uri_if_possible accepts local names containing '/' or '#' (not both)", patch_prefixize_loose),
+        ("C14", "[4.5] the '^' of an incoming constraint on the instantiation property is not printed",
+         setattr_patch(bss.BaseStatementSerializer, "serialize_statement_with_indent_level", serialize_without_caret_for_pi)),
+        ("C09", "[4.6] longest_common_prefix returns uri2 when the shorter IRI is a prefix of the other",
+         setattr_patch(cp, "longest_common_prefix", lcp_returns_uri2)),
+    ]
+
     round3 = [
         ("C01", "[3.1] FixedPropChoiceStatement: every disjunction shares ONE comments list",
          patch_shared_or_comments),
@@ -2170,7 +2458,7 @@ def _mutants():
          setattr_patch(dss.DirectShexingStrategy, "_yield_base_shapes_direction_aware", yield_base_keep_rdf_type)),
     ]
 
-    return round3 + round2 + [
+    return round4 + round3 + round2 + [
         ("C10", "MixedInstanceTracker._integrate_dicts overwrites the labels the shape map gave a node",
          setattr_patch(mit.MixedInstanceTracker, "_integrate_dicts", integrate_overwrite)),
         ("C14", "_is_relevant_instance without IRI/BNode type check, _annotate_target_object keyed by str(): literals count as links",
